@@ -23,6 +23,7 @@ import json
 import multiprocessing as mp
 import os
 import shutil
+import signal
 import subprocess
 import sys
 import tempfile
@@ -378,7 +379,9 @@ def _run_chunk(args):
     fn, chunk = args
     acc = Acc()
     enable_line_monitoring()
-    for order, case in chunk:
+    for pos, (order, case) in enumerate(chunk):
+        if _CUR is not None:
+            _CUR.value = pos
         if too_many_timeouts():
             acc.extra['cases_skipped_after_timeouts'] += 1
             continue
@@ -401,6 +404,173 @@ def _run_chunk(args):
     return acc
 
 
+
+# ---------------------------------------------------------------------------
+# worker pool that survives the death of a worker
+# ---------------------------------------------------------------------------
+# A case that makes the interpreter die (a segmentation fault in code reached through the tree
+# under test, e.g. an array over a memory map that was closed) would hang multiprocessing.Pool
+# forever. Here the parent knows which item of which chunk every worker is running (a shared
+# counter written before each item), so a death is attributed to that item: it becomes a
+# violation <ID>/crash/<signal> with the item as its replayable case, the worker is replaced
+# and the rest of the chunk is run without the item.
+
+_CUR = None          # in a worker: shared index of the item being run
+MAX_CRASHES = 12
+
+
+def _pool_worker(conn, cur):
+    global _CUR
+    _CUR = cur
+    while True:
+        try:
+            msg = conn.recv()
+        except EOFError:
+            break
+        if msg is None:
+            break
+        tid, func, args = msg
+        cur.value = -1
+        try:
+            res = ('ok', func(args))
+        except BaseException as e:           # PhylibImportError and harness failures travel back
+            res = ('exc', e)
+        try:
+            conn.send((tid, res))
+        except Exception as e:
+            conn.send((tid, ('exc', RuntimeError('unpicklable result: %r' % (e,)))))
+
+
+class CrashPool(object):
+    def __init__(self, jobs):
+        self.jobs = jobs
+        self.mp = mp.get_context('fork')
+        self.workers = []        # dicts: proc, conn, cur, task
+        self.crashes = 0
+
+    def _spawn(self):
+        a, b = self.mp.Pipe()
+        cur = self.mp.Value('q', -1, lock=False)
+        proc = self.mp.Process(target=_pool_worker, args=(b, cur), daemon=True)
+        proc.start()
+        b.close()
+        w = {'proc': proc, 'conn': a, 'cur': cur, 'task': None}
+        self.workers.append(w)
+        return w
+
+    def close(self):
+        for w in self.workers:
+            try:
+                w['conn'].send(None)
+            except Exception:
+                pass
+        for w in self.workers:
+            w['proc'].join(5)
+            if w['proc'].is_alive():
+                w['proc'].kill()
+        self.workers = []
+
+    def imap(self, func, work, ordered=False):
+        """Yield func(args) for every args of `work`. A task is (func, (fn, items)); when a worker
+        dies, the item it was running is reported through the Acc of the task's result."""
+        from multiprocessing.connection import wait
+        work = list(work)
+        pending = collections.deque(range(len(work)))
+        tasks = {i: {'args': work[i], 'crashed': []} for i in pending}
+        done = {}
+        next_out = 0
+        n_done = 0
+        self.close()      # fresh workers per sweep: they see the module globals as they are now
+        while len(self.workers) < min(self.jobs, len(work)):
+            self._spawn()
+        while n_done < len(work):
+            for w in self.workers:
+                if w['task'] is None and pending:
+                    tid = pending.popleft()
+                    w['task'] = tid
+                    w['cur'].value = -1
+                    w['conn'].send((tid, func, tasks[tid]['args']))
+            busy = [w for w in self.workers if w['task'] is not None]
+            ready = wait([w['conn'] for w in busy] + [w['proc'].sentinel for w in busy])
+            for w in busy:
+                if w['conn'] in ready or w['proc'].sentinel in ready:
+                    msg = None
+                    try:
+                        if w['conn'].poll():
+                            msg = w['conn'].recv()
+                    except (EOFError, OSError):
+                        msg = None
+                    tid = w['task']
+                    if msg is not None:
+                        w['task'] = None
+                        kind, val = msg[1]
+                        if kind == 'exc':
+                            raise val
+                        done[tid] = self._finish(func, tasks[tid], val)
+                        n_done += 1
+                    elif not w['proc'].is_alive():
+                        # the worker died while running item cur of task tid
+                        w['proc'].join()
+                        code = w['proc'].exitcode
+                        idx = int(w['cur'].value)
+                        self.workers.remove(w)
+                        self.crashes += 1
+                        t = tasks[tid]
+                        fn, items = t['args']
+                        items = list(items)
+                        if 0 <= idx < len(items) and self.crashes <= MAX_CRASHES:
+                            t['crashed'].append((items[idx], items[:idx], code))
+                            t['args'] = (fn, items[:idx] + items[idx + 1:])
+                            pending.appendleft(tid)
+                        else:
+                            t['crashed'].append((None, items, code))
+                            t['args'] = (fn, [])
+                            pending.appendleft(tid)
+                        self._spawn()
+            if ordered:
+                while next_out in done:
+                    yield done.pop(next_out)
+                    next_out += 1
+            else:
+                for tid in list(done):
+                    yield done.pop(tid)
+
+    def _finish(self, func, task, val):
+        if not task['crashed']:
+            return val
+        acc = val[0] if isinstance(val, tuple) else val
+        fn = task['args'][0]
+        prop = CURRENT.get('prop') or '?'
+        for item, before, code in task['crashed']:
+            name = 'exit-%s' % code
+            if code is not None and code < 0:
+                try:
+                    name = signal.Signals(-code).name
+                except ValueError:
+                    name = 'signal-%d' % -code
+            sig = '%s/crash/%s' % (prop, name)
+            bfs_mode = func is _expand_chunk
+            if item is None:
+                rec = make_record(prop, 'crash', sig, case=None,
+                                  observed='a worker process died (%s); the item could not be attributed'
+                                  % name)
+            elif bfs_mode:
+                rec = make_record(prop, 'crash', sig, case={'bfs_state': jsonable(item[0])},
+                                  trace=jsonable(item[1]), expected='the interpreter survives',
+                                  observed='the worker process died (%s) while expanding this state' % name)
+                rec['process_history'] = {'fn': '%s:%s' % (fn.__module__, fn.__name__), 'mode': 'bfs',
+                                          'tier': CURRENT.get('tier'), 'seed': CURRENT.get('seed'),
+                                          'cases': [jsonable(c) for c in before[-25:]] + [jsonable(item)]}
+            else:
+                rec = make_record(prop, 'crash', sig, case=item[1], expected='the interpreter survives',
+                                  observed='the worker process died (%s) while running this case' % name)
+                rec['process_history'] = {'fn': '%s:%s' % (fn.__module__, fn.__name__),
+                                          'cases': [jsonable(c) for _, c in before[-40:]]}
+            acc.violation(sig, rec, item[0] if (item is not None and not bfs_mode) else 0)
+            acc.extra['worker_deaths'] += 1
+        return val
+
+
 class Ctx(object):
     def __init__(self, prop, tier, seed, jobs):
         self.prop = prop
@@ -416,6 +586,7 @@ class Ctx(object):
         self.notes = {}
         self.t0 = time.time()
         self._pool = None
+        CURRENT.update(tier=tier, seed=seed, prop=prop)
         scratch_root()   # created before forking so that workers share it and the parent removes it
         enable_line_monitoring()
 
@@ -425,14 +596,12 @@ class Ctx(object):
 
     def pool(self):
         if self._pool is None and self.jobs > 1:
-            ctx = mp.get_context('fork')
-            self._pool = ctx.Pool(self.jobs)
+            self._pool = CrashPool(self.jobs)
         return self._pool
 
     def close(self):
         if self._pool is not None:
             self._pool.close()
-            self._pool.join()
             self._pool = None
 
     def run_cases(self, fn, cases, chunk=None, sweep=None):
@@ -448,8 +617,8 @@ class Ctx(object):
         if chunk is None:
             chunk = max(1, min(200, n // (self.jobs * 8) or 1))
         work = [(fn, c) for c in _chunks(indexed, chunk)]
-        if self.jobs > 1 and len(work) > 1:
-            for acc in self.pool().imap_unordered(_run_chunk, work):
+        if self.jobs > 1 and work:
+            for acc in self.pool().imap(_run_chunk, work):
                 sub.merge(acc)
         else:
             for w in work:
@@ -564,18 +733,32 @@ def explore_env(run, on_execution, first=None):
     return n_exec
 
 
+_RECENT_BFS = collections.deque(maxlen=25)
+CURRENT = {}     # tier and seed of the exploration (set by Ctx before forking)
+
+
 def _expand_chunk(args):
     fn, chunk = args
     acc = Acc()
     succ = []
     enable_line_monitoring()
-    for key, hist in chunk:
+    for pos, (key, hist) in enumerate(chunk):
+        if _CUR is not None:
+            _CUR.value = pos
+        before = set(acc.violations)
         try:
             succ.extend(fn(key, hist, acc))
         except PhylibImportError:
             raise
         except Exception as e:
             _uncaught(fn, e, acc, len(hist), trace=hist)
+        for sig in set(acc.violations) - before:
+            # as in _run_chunk: the expansions this worker ran just before, for a faithful replay
+            acc.violations[sig]['record']['process_history'] = {
+                'fn': '%s:%s' % (fn.__module__, fn.__name__), 'mode': 'bfs',
+                'tier': CURRENT.get('tier'), 'seed': CURRENT.get('seed'),
+                'cases': [jsonable(c) for c in _RECENT_BFS] + [jsonable((key, hist))]}
+        _RECENT_BFS.append((key, hist))
     acc.lines = drain_lines()
     return acc, succ
 
@@ -601,8 +784,8 @@ def bfs(ctx, expand, roots, max_depth=None, sweep=None, chunk=64):
             break
         work = [(expand, c) for c in _chunks(frontier, chunk)]
         nxt = []
-        if ctx.jobs > 1 and len(work) > 1:
-            results = ctx.pool().imap(_expand_chunk, work)
+        if ctx.jobs > 1 and work:
+            results = ctx.pool().imap(_expand_chunk, work, ordered=True)
         else:
             results = (_expand_chunk(w) for w in work)
         for acc, succ in results:
@@ -662,6 +845,28 @@ def reproduce_in_fresh_process(prop, path):
     p = subprocess.run([sys.executable, '-m', 'mc.cli', prop, '--replay', path, '--raw'],
                        cwd=VERIF, env=env, capture_output=True, text=True, timeout=600)
     return p.returncode == 1, (p.stdout + p.stderr)[-800:]
+
+
+def died_in_child(body):
+    """Run body() in a forked child; return the signal name / exit code if the child died, else None."""
+    sys.stdout.flush()
+    pid = os.fork()
+    if pid == 0:
+        try:
+            devnull = os.open(os.devnull, os.O_WRONLY)
+            os.dup2(devnull, 1)
+            os.dup2(devnull, 2)
+            body()
+        except BaseException:
+            os._exit(0)
+        os._exit(0)
+    _, status = os.waitpid(pid, 0)
+    if os.WIFSIGNALED(status):
+        try:
+            return signal.Signals(os.WTERMSIG(status)).name
+        except ValueError:
+            return 'signal-%d' % os.WTERMSIG(status)
+    return None
 
 
 def validate_evidence(path):
